@@ -71,6 +71,8 @@ pub enum Op {
     UniqueRoot(u16),
     Downgrade(u16),
     CloneWeak(u16),
+    /// `Clone::clone_from(&mut weak[dst], &weak[src])`
+    WeakCloneFrom { dst: u16, src: u16 },
     DropWeak(u16),
     Upgrade(u16),
     StoreWeak { owner: u16, w: u16 },
@@ -179,6 +181,7 @@ pub fn op_compact(op: &Op) -> String {
         Op::StoreWeak { owner, w } => format!("StoreW({}<-{})", owner, w),
         Op::RemoveWeak { owner, slot } => format!("RemoveW({}[{}])", owner, slot),
         Op::WeakNew => "WeakNew".into(),
+        Op::WeakCloneFrom { dst, src } => format!("WeakCloneFrom(weak {} <- weak {})", dst, src),
         Op::TryUnwrap(r) => format!("TryUnwrap({})", r),
         Op::MakeMut(r) => format!("MakeMut({})", r),
         Op::GetMut(r) => format!("GetMut({})", r),
